@@ -1368,8 +1368,14 @@ fn rebuild_value(
             builder.token(k.into(), &t);
         }
     } else {
+        // A first line starting with '#' has to stay on the field's own line:
+        // as a continuation line it would be read as a comment
+        let starts_with_hash = tokens
+            .iter()
+            .find(|(k, _t)| *k == VALUE)
+            .map_or(false, |(_k, t)| t.starts_with('#'));
         // Insert a leading newline if the value is multi-line and immediate_empty_line is set
-        if immediate_empty_line && has_newline {
+        if immediate_empty_line && has_newline && !starts_with_hash {
             builder.token(NEWLINE.into(), "\n");
             last_was_newline = true;
         } else {
